@@ -535,6 +535,7 @@ func C17() int {
 			r.Sample(map[string]string{"kind": "history", "ops": strings.Join(parts, " ; "), "in_function": fmt.Sprint(i%2 == 1), "via_variables": fmt.Sprint(i%3 == 2)})
 		}
 	})
+	c17Batch(r, deadline, &mu, &evals, &validated, &undef, &capped, distinct)
 	r.Set("states", len(states))
 	r.Set("transitions", transitions)
 	r.Set("traces_validated_against_impl", validated)
@@ -542,6 +543,133 @@ func C17() int {
 	r.Set("distinct_nontrivial", distinct.Len())
 	r.Set("skipped_undefined", undef)
 	r.Set("exhaustive", !capped)
-	r.Set("rule", "phase 1: cell table path spelling x content (write, exists, read, append, read; at top level, inside a function, and with path/content in variables): stdout, exit, stderr and the final sandbox file system (exact bytes of every file, no other file) must equal the map[path]content model. phase 2: explicit-state search over the model file system: every operation sequence over {write, append, read, exists} x paths x contents up to the all-paths depth, then breadth-first search with state merging; each history replayed on the real transpiler + bash (alternating top level / function / variables). Phase 2 uses the paths and contents whose cells pass on this run, so it is fully sensitive there; failing cells are violations or listed known findings. states = distinct model file systems.")
+	r.Set("rule", "phase 1: cell table path spelling x content (write, exists, read, append, read; at top level, inside a function, and with path/content in variables): stdout, exit, stderr and the final sandbox file system (exact bytes of every file, no other file) must equal the map[path]content model. phase 2: explicit-state search over the model file system: every operation sequence over {write, append, read, exists} x paths x contents up to the all-paths depth, then breadth-first search with state merging; each history replayed on the real transpiler + bash (alternating top level / function / variables). Phase 2 uses the paths and contents whose cells pass on this run, so it is fully sensitive there; failing cells are violations or listed known findings. states = distinct model file systems. phase 3 (Batch target, under the cmd.exe model that interprets the emitted file helpers from their text): every history up to the stated depth over 2 paths x 4 cmd-neutral contents (one of them two lines) in five program shapes; output, exit status and final file system must equal the model's; runs the cmd.exe model refuses to decide are counted, not judged.")
 	return finish(r)
+}
+
+// c17Batch: the line-store clauses on the Batch target. The emitted helpers (:_fwh, :_frh, if exist) are
+// interpreted from their text by cmdmodel (rules 9 and 11: for /f over a string / a file / a child echo with
+// redirection). Paths and contents stay inside what the model decides (no character the child cmd.exe would
+// interpret); whatever it refuses is counted as unmodelled.
+func c17Batch(r *findings.Run, deadline time.Time, mu *sync.Mutex, evals, validated, undef *int, capped *bool, distinct *findings.Distinct) {
+	paths := []string{"a.txt", "b-2.txt"}
+	contents := []string{"one", "two words", "lineA\nlineB", "x.y,z"}
+	var alphabet []c17Op
+	for _, p := range paths {
+		for _, c := range contents {
+			alphabet = append(alphabet, c17Op{"W", p, c}, c17Op{"A", p, c})
+		}
+		alphabet = append(alphabet, c17Op{"R", p, ""}, c17Op{"E", p, ""})
+	}
+	alphabet = append(alphabet, c17Op{"RR", paths[0], paths[1]})
+	depth := 2
+	if r.Thorough() {
+		depth = 3
+	}
+	var hist [][]c17Op
+	var rec func(h []c17Op, have map[string]bool)
+	rec = func(h []c17Op, have map[string]bool) {
+		if len(h) > 0 {
+			hist = append(hist, append([]c17Op{}, h...))
+		}
+		if len(h) == depth {
+			return
+		}
+		for _, o := range alphabet {
+			if (o.kind == "R" && !have[o.path]) || (o.kind == "RR" && (!have[o.path] || !have[o.content])) {
+				continue // read of a missing file is undefined
+			}
+			n := map[string]bool{}
+			for k := range have {
+				n[k] = true
+			}
+			if o.kind == "W" || o.kind == "A" {
+				n[o.path] = true
+			}
+			rec(append(append([]c17Op{}, h...), o), n)
+		}
+	}
+	rec(nil, map[string]bool{})
+	type shape struct {
+		name string
+		mk   func(h []c17Op) *Prog
+	}
+	shapes := []shape{
+		{"top", func(h []c17Op) *Prog { return c17Prog(h, false, false) }},
+		{"function+variables", func(h []c17Op) *Prog { return c17Prog(h, true, true) }},
+		{"wrappers", c17WrapperProg},
+		{"mixed", c17MixedProg},
+		{"first-sites-not-yet-run", c17LateProg},
+	}
+	unmodelled := 0
+	agreed := 0
+	drive.Par(len(hist), func(i int) {
+		if past(deadline) {
+			mu.Lock()
+			*capped = true
+			mu.Unlock()
+			return
+		}
+		h := hist[i]
+		var parts []string
+		for _, o := range h {
+			parts = append(parts, o.String())
+		}
+		for si, sh := range shapes {
+			if r.Thorough() && len(h) == 3 && si%2 == 1 {
+				continue // depth 3: three of the five shapes
+			}
+			p := sh.mk(h)
+			bv, after := JudgeBatchFiles(p, map[string]string{})
+			mu.Lock()
+			*evals++
+			mu.Unlock()
+			distinct.Add("batch:" + bv.Src)
+			name := fmt.Sprintf("batch history %s shape=%s", strings.Join(parts, " ; "), sh.name)
+			switch bv.Symptom {
+			case "undefined":
+				mu.Lock()
+				*undef++
+				mu.Unlock()
+				continue
+			case "unmodelled":
+				mu.Lock()
+				unmodelled++
+				mu.Unlock()
+				continue
+			case "":
+				var diffs []string
+				for k, v := range bv.Want.FS {
+					if g, ok := after[k]; !ok {
+						diffs = append(diffs, fmt.Sprintf("missing file %q", k))
+					} else if g != v {
+						diffs = append(diffs, fmt.Sprintf("file %q holds %q want %q", k, clip(g), clip(v)))
+					}
+				}
+				for k := range after {
+					if _, ok := bv.Want.FS[k]; !ok {
+						diffs = append(diffs, fmt.Sprintf("unexpected file %q", k))
+					}
+				}
+				sort.Strings(diffs)
+				if len(diffs) == 0 {
+					mu.Lock()
+					*validated++
+					agreed++
+					mu.Unlock()
+					continue
+				}
+				bv.Symptom, bv.Detail = "filesystem-diff", strings.Join(diffs, "; ")
+			}
+			again, _ := JudgeBatchFiles(p, map[string]string{})
+			if again.Symptom != "" && again.Symptom != bv.Symptom && bv.Symptom != "filesystem-diff" {
+				panic("HARNESS ERROR: c17 batch case not deterministic: " + name)
+			}
+			r.Fail(name+" symptom="+bv.Symptom, fmt.Sprintf("%s: %s (%s)", name, bv.Symptom, bv.Detail), batchReplay(bv))
+		}
+	})
+	r.Set("batch_histories", len(hist))
+	r.Set("batch_runs_agreeing_with_the_model", agreed)
+	r.Set("batch_runs_unmodelled", unmodelled)
+	r.Set("batch_bounds", fmt.Sprintf("every history of depth<=%d over %d operations (2 paths x 4 contents), %d program shapes", depth, len(alphabet), len(shapes)))
 }
